@@ -53,6 +53,8 @@ type RuleStat struct {
 
 // Ctx is the loaded program plus the obligation log.
 type Ctx struct {
+	fnLookups map[string]bool          // every (package|name) asked of fn, for -anchors
+	renamed   map[string]*ssa.Function // anchors found by signature after a rename
 	extendsWalks   []*ssa.Function // loops that walk the chord table's extends links (loopmeasure.go)
 	extendsChecked bool
 	lexTabs        *lexTables // cached lexer tables (rules_tab2.go)
@@ -176,6 +178,7 @@ func load(repo string, overlay map[string][]byte) (*Ctx, error) {
 		}
 	}
 	c.buildCobraModel() // also names the anonymous command handlers
+	c.resolveAnchors()
 	return c, nil
 }
 
@@ -218,7 +221,116 @@ func short(s string) string {
 }
 
 // fn looks up a function or method: fn("play", "Key.Apply"), fn("midix", "MIDIWriter.Note"), fn("op", "NewScale").
+// fn finds a function by package and (receiver-qualified) name. When an unexported anchor is not found under its name,
+// it is looked for by what identifies it besides the name (package, receiver type, signature; see anchors.go): a plain
+// rename then keeps every rule working, and the function keeps its old name in keys and facts.
 func (c *Ctx) fn(pkgrel, name string) *ssa.Function {
+	if c.fnLookups == nil {
+		c.fnLookups = map[string]bool{}
+	}
+	c.fnLookups[pkgrel+"|"+name] = true
+	if f := c.fnByName(pkgrel, name); f != nil {
+		return f
+	}
+	if f, ok := c.renamed[pkgrel+"|"+name]; ok {
+		return f
+	}
+	return c.fnBySignature(pkgrel, name)
+}
+
+func splitRecv(name string) (recv, meth string) {
+	meth = name
+	if strings.HasPrefix(name, "(*") {
+		i := strings.Index(name, ").")
+		return name[2:i], name[i+2:]
+	}
+	if i := strings.Index(name, "."); i >= 0 {
+		return name[:i], name[i+1:]
+	}
+	return "", name
+}
+
+// sigKey: receiver type name and signature of a function, package-qualified, without parameter names.
+func sigKey(f *ssa.Function) string {
+	sig := f.Signature
+	recv := ""
+	if r := sig.Recv(); r != nil {
+		recv = typeName(r.Type())
+	}
+	q := func(p *types.Package) string { return p.Path() }
+	var ps, rs []string
+	for i := 0; i < sig.Params().Len(); i++ {
+		ps = append(ps, types.TypeString(sig.Params().At(i).Type(), q))
+	}
+	for i := 0; i < sig.Results().Len(); i++ {
+		rs = append(rs, types.TypeString(sig.Results().At(i).Type(), q))
+	}
+	v := ""
+	if sig.Variadic() {
+		v = "..."
+	}
+	return recv + "(" + strings.Join(ps, ",") + v + ")(" + strings.Join(rs, ",") + ")"
+}
+
+func (c *Ctx) fnBySignature(pkgrel, name string) *ssa.Function {
+	want, ok := anchorSigs[pkgrel+"|"+name]
+	_, meth := splitRecv(name)
+	if !ok || meth == "" || ast.IsExported(meth) {
+		return nil
+	}
+	sp := c.ssapkg(pkgrel)
+	if sp == nil {
+		return nil
+	}
+	// names that belong to other anchors which are still found under their own name
+	taken := map[*ssa.Function]bool{}
+	for k := range anchorSigs {
+		i := strings.Index(k, "|")
+		if k[:i] == pkgrel {
+			if f := c.fnByName(pkgrel, k[i+1:]); f != nil {
+				taken[f] = true
+			}
+		}
+	}
+	var cands []*ssa.Function
+	consider := func(f *ssa.Function) {
+		if f == nil || len(f.Blocks) == 0 || f.Synthetic != "" || taken[f] || f.Object() == nil || f.Object().Exported() {
+			return
+		}
+		if sigKey(f) == want {
+			cands = append(cands, f)
+		}
+	}
+	for _, m := range sp.Members {
+		switch x := m.(type) {
+		case *ssa.Function:
+			consider(x)
+		case *ssa.Type:
+			if named, ok := x.Type().(*types.Named); ok {
+				for i := 0; i < named.NumMethods(); i++ {
+					consider(c.Prog.FuncValue(named.Method(i)))
+				}
+			}
+		}
+	}
+	if len(cands) != 1 {
+		return nil
+	}
+	f := cands[0]
+	if c.renamed == nil {
+		c.renamed = map[string]*ssa.Function{}
+	}
+	c.renamed[pkgrel+"|"+name] = f
+	recv, _ := splitRecv(name)
+	old := pkgrel + "."
+	if recv != "" {
+		old += recv + "."
+	}
+	funcAlias[f] = old + meth
+	return f
+}
+
+func (c *Ctx) fnByName(pkgrel, name string) *ssa.Function {
 	sp := c.ssapkg(pkgrel)
 	if sp == nil {
 		return nil
@@ -348,4 +460,13 @@ func sortedKeys[M ~map[string]V, V any](m M) []string {
 	}
 	sort.Strings(ks)
 	return ks
+}
+
+
+// resolveAnchors looks every known anchor up once, so that a renamed helper gets its stable alias before any rule runs.
+func (c *Ctx) resolveAnchors() {
+	for k := range anchorSigs {
+		i := strings.Index(k, "|")
+		c.fn(k[:i], k[i+1:])
+	}
 }
